@@ -8,3 +8,13 @@ Definition holds_C03 (c : p8cart) (raised : bool) (c' : p8cart) (f1 f2 : list Z)
   if wf_p8cart c && code_in_format (pc_code c)
   then negb raised && same_cart_p8 c c' && zlist_eqb f1 f2
   else true.
+
+(* One observation of READING a file whose data sections have fewer rows than the full count (or are missing):
+   s: the cart cut to the rows the file spells out (code = the text of its __lua__ section); raised: from_file
+   raised; c': the cart it returned.  The cart read must be the cart the file denotes: every region at full
+   size, the rows present followed by the empty default (music minus the unrepresentable bit, a missing final
+   newline of the code supplied). *)
+Definition holds_C03_short (s : p8cart) (raised : bool) (c' : p8cart) : bool :=
+  if short_p8cart s && code_in_format (pc_code s)
+  then negb raised && wf_p8cart c' && same_cart_p8 (denoted_p8cart s) c'
+  else true.
